@@ -24,13 +24,27 @@ THEOREMS = [
     'CC.C15_value_roundtrip', 'CC.C15_phase_roundtrip',      # kernel lemmas about savedVal / savedPhase (see their docstrings)
     'CC.C15_roundtrip_element', 'CC.C15_stable_element', 'CC.C15_roundtrip', 'CC.C15_stable', 'CC.C15_cycles',
     'CC.C15_declarative',
+    # round 5 (CC/Properties/C15Declarative.lean, lemmas in CC/Proofs/DrawDeclarative2.lean)
+    'CC.Draw.construct_congr', 'CC.Draw.declarative_frame', 'CC.Draw.declarative_eq_declFrom',
+    'CC.C15_declarative_list', 'CC.C15_declarative_length', 'CC.C15_declarative_symbols',
+    'CC.C15_declarative_unknown', 'CC.C15_declarative_untyped', 'CC.C15_declarative_circuit',
+    'CC.C15_extra_keys_symbol', 'CC.C15_extra_keys_circuit',
 ]
+LEAN_MODULE_EXTRA = ['CC.Properties.C15Declarative']
 OPEN_STATEMENTS = [
-    'a declarative element list produces the same symbol list / circuit as the corresponding constructor calls (handler lookup, '
-    'direction → method, length × unit, place_after): the model function `declarative` is in no theorem (C15_declarative only says '
-    'that the placement keys do not reach the constructor) — generated tables (C15_tables) + correspondence + oracle',
-    'C15_roundtrip / C15_stable assume the keyword layouts of C15_Canonical and unique element names; other layouts (extra opaque '
-    'keywords such as placement parameters) are covered by the correspondence and the oracle only',
+    'declarative descriptions: the model function `declarative` is now characterised for every description list '
+    '(C15_declarative_list: iff; C15_declarative_symbols: each constructor call equals the programmatic call on the constructor '
+    'keywords, any keys / order / values; C15_declarative_circuit: same symbol list, same circuit for any anchors). Still '
+    'correspondence + oracle only: that `create_schematic` is this model (handler table, direction table, factory defaults are '
+    'regenerated from the AST), and the geometry — the anchors schemdraw computes from (class, method, length × unit, place_after '
+    'end anchor) are a parameter (`anch`) of C15_declarative_circuit, assumed equal for the declarative and the programmatic drawing; '
+    'Elements.Ground\'s re-mapped direction methods are outside the model',
+    'C15_roundtrip / C15_stable assume the keyword layouts of C15_Canonical and unique element names. Round 5 proves that extra '
+    'keywords the class does not read (placement parameters d, l, at, …) do not change the symbol or the circuit '
+    '(C15_extra_keys_symbol / C15_extra_keys_circuit, any base layout), but NOT that save∘load of a drawing with such extras '
+    'succeeds with a drawing of the same form (extras carried through userparams; a complex- or None-valued extra is stored as None '
+    'and dropped on the next cycle, so the fixed-point part of ElemStable needs a restriction on the extras\' values) — the round trip '
+    'of layouts with extra keywords stays with the correspondence and the oracle',
 ]
 ASSUMPTIONS = [
     'json.loads(json.dumps(t)) = t on the stored tree (floats round-trip exactly through repr); yaml likewise',
